@@ -141,7 +141,7 @@ func runC10(c *mon.Ctx) {
 		}
 		ns = append(ns, 65, 127, 128, 129, 255, 256, 257)
 	} else {
-		for n := 1; n <= 300; n++ {
+		for n := 1; n <= 520; n++ {
 			ns = append(ns, n)
 		}
 		ns = append(ns, 511, 512, 513, 1023, 1024, 1025, 2047, 2048, 2049, 4095, 4096, 4097)
@@ -405,7 +405,7 @@ func runC10(c *mon.Ctx) {
 	}
 
 	// ---- tile coordinates <-> paths ---------------------------------------------------------
-	nPath := c.Share(c.Scale(60_000, 3_000_000))
+	nPath := c.Share(c.Scale(60_000, 12_000_000))
 	for i := 0; i < nPath; i++ {
 		id := fmt.Sprintf("path:%d", i)
 		if !c.Want(id) {
